@@ -18,8 +18,9 @@ CHECKS = {
         text="Every read operation (search/count/contains/get/select, with and without measurement filter) is compared with a "
         "reference model on every feasible path of bounded histories (<=3-4 points, depth <=5-6) whose times, field values, "
         "tag/measurement selectors, comparison operators and comparison values are symbolic; exhausting the decision tree "
-        "decides the property for all values within those bounds, for memory (unbounded ints) and CSV (small ranges) storage, "
-        "auto_index on/off/manual reindex.",
+        "decides the property for all values within those bounds, for memory (unbounded ints, float-typed quarters) and CSV (small "
+        "ranges) storage, auto_index on / off / manual reindex before or after the operation; plus all two-operation histories over "
+        "13 operations with four kinds of final read, and 9-10 point databases with every subset of matching positions.",
         design_ref="DESIGN.md 4 C01",
     ),
 }
@@ -28,8 +29,9 @@ CHECKS["C18"] = dict(
     technique="symbolic execution of find_* (own path engine over z3 and CrossHair, cross-validated), all integer lists up to the length bound",
     text="For every sorted list up to length 7 (thorough 9) over ALL integers (stronger than the 5-value domain of the property) and "
     "every integer probe, each helper's return value equals the documented boundary position; decided per list length by "
-    "exhausting the decision tree (lean engine) and independently by CrossHair ('Confirmed over all paths'); thorough adds "
-    "List[float] under CrossHair's real-valued float model.",
+    "exhausting the decision tree (lean engine) and independently by CrossHair ('Confirmed over all paths'); a float family "
+    "(elements and probe k/2**40, |k| < 2**53, length <= 4, thorough 6; round() and +/- modelled over the reals, candidates replayed on "
+    "doubles) separates exact comparison from rounding or tolerance; thorough adds List[float] under CrossHair's real-valued float model.",
     design_ref="DESIGN.md 4 C18",
     note="trusted: z3, vf.lpe, CrossHair; assumes sorted input; longer lists and NaN are outside the claim",
 )
@@ -55,14 +57,18 @@ CHECKS["C02"] = dict(
     technique=LPE,
     text="remove / drop_measurement / remove_all / Measurement.remove(_all) with every vocabulary query shape (symbolic operators and "
     "right-hand sides, measurement filters) on 3 symbolic points: return value == number of model matches, surviving contents == "
-    "model in the same order, index invariant, then a symbolic time read and optionally a further insert; all feasible paths.",
+    "model in the same order, index invariant, then a symbolic time read and optionally a further insert; all feasible paths. "
+    "Also [X, removal, Y] histories over 9 removals x 9 preceding x 3-5 following operations, 9-10 point databases with every "
+    "subset of removed positions, measurement names m/mm, CR/LF content surviving rewrites.",
     design_ref="DESIGN.md 4 C02",
 )
 CHECKS["C03"] = dict(
     technique=LPE,
     text="update / update_all / Measurement.update(_all) for 20 argument combinations (static and callable time, measurement, tags, "
     "fields, unset_* incl. a key set by the same call) x query shapes on 2-3 symbolic points: return value == number of points "
-    "whose content changed in the model, contents == model (merge semantics, order), index invariant, then a symbolic read.",
+    "whose content changed in the model, contents == model (merge semantics, order), index invariant, then a symbolic read. "
+    "Also two successive updates (aliasing), [X, update, Y] histories over 10 updates, callables that mutate their argument or "
+    "return non-UTC times, 9-10 point databases with every subset of matching positions.",
     design_ref="DESIGN.md 4 C03",
 )
 CHECKS["C06"] = dict(
@@ -70,7 +76,8 @@ CHECKS["C06"] = dict(
     text="Every operation skeleton up to depth 3 (thorough 4; plus hand-picked depth 5-6) over 12 operations from an empty database with "
     "symbolic times: after every step a valid index must equal Index().build(storage) in canonical form, a non-decreasing insert "
     "must keep it valid, every read must leave it valid; plus one Index.remove/update/insert step from an arbitrary built index "
-    "for every removal subset (inductive step).",
+    "for every removal subset (inductive step). One obligation is discharged by both the lean engine and CrossHair (thorough) and "
+    "the verdicts / path counts are compared (cross-validation of the home-grown engine).",
     design_ref="DESIGN.md 3, 4 C06",
 )
 CHECKS["C07"] = dict(
@@ -122,7 +129,8 @@ NOTE_FILES = (
 )
 CHECKS["C04"] = dict(
     technique=FILES,
-    text="For 4 encodings x 5 csv dialects x flush_on_insert x compact prefixes x 7 write/read histories x 121 content pairs (strings with "
+    text="For access modes r+/w+ x 4 encodings x 5 csv dialects x flush_on_insert x compact prefixes x 13 write/read histories (incl. two rewrites, "
+    "single buffered row before remove_all, files > 8 KiB with early-stopping reads) x 121 content pairs (strings with "
     "delimiters, quotes, CR, LF, non-ASCII) the database file is decoded by an independent csv reader after every call (after "
     "close() when flush_on_insert is off) and through a fresh read-only TinyFlux, and must equal the model's contents in order.",
     design_ref="DESIGN.md 4 C04, 5",
@@ -131,7 +139,8 @@ CHECKS["C04"] = dict(
 CHECKS["C12"] = dict(
     technique=FILES,
     text="Process death is simulated at every I/O call boundary (and at three points inside a file copy) of insert, insert_multiple, update, "
-    "update_all, remove, drop_measurement, remove_all and Measurement.remove_all on a 3-point CSV database: the bytes on disk at that "
+    "update_all, remove (middle, prefix-only and suffix-only matches), drop_measurement, remove_all and the Measurement-handle versions on a "
+    "3-point CSV database (default mode and access_mode='w+'): the bytes on disk at that "
     "instant, read through an independent handle, must decode to the old or the new contents (insert_multiple: old + prefix) and a "
     "fresh TinyFlux must open them.",
     design_ref="DESIGN.md 2.3, 4 C12, 5",
@@ -140,9 +149,11 @@ CHECKS["C12"] = dict(
 )
 CHECKS["C13"] = dict(
     technique=FILES,
-    text="One OSError is injected at every I/O call of every operation (before the call; after it for write/flush/fsync/truncate/close): the "
-    "error must reach the caller, the file must decode to old or new contents, every later answer of the live object must equal what "
-    "its own storage holds or be an exception, and after a further write, close and reopen only stored points may be present.",
+    text="One OSError is injected at every I/O call of every operation, including every line read while the library scans its file and "
+    "the reopen after a rewrite (before the call; after it for write/flush/fsync/truncate/close; default mode and access_mode='w+'): the "
+    "error must reach the caller, the file must decode to old or new contents, EACH later answer of the live object must equal what "
+    "its own storage holds (the file at its path when its handle no longer reads) or be an exception, and after a further write, close "
+    "and reopen only stored points may be present.",
     design_ref="DESIGN.md 2.3, 4 C13, 5",
     note=NOTE_FILES,
     category="fault_enumeration",
@@ -159,8 +170,10 @@ CHECKS["C16"] = dict(
     technique="symbolic execution of CSVStorage.append / _insert_helper over an abstract file whose length and cursor are unbounded symbolic integers (z3), plus recorded real-file runs",
     text="The primary handle is replaced by a FakeFile with symbolic length L and cursor pos (0 <= pos <= L, unbounded): on every path no "
     "read happens, every write lands at an offset >= L, nothing is truncated below L, and the I/O call sequence equals the one "
-    "for an empty file - for all sizes and cursor positions at once. Real-file runs check the byte-prefix property and identical "
-    "recorded call lists for 0..3 stored points after early-stopping reads.",
+    "for an empty file - for all sizes and cursor positions at once, also with a symbolic number of earlier bytes still in the "
+    "write buffer (flush_on_insert off; fstat/getsize answer with the on-disk length). Real-file runs (flush on/off, three inserts back "
+    "to back) check the byte-prefix chain, the reopened contents and identical recorded call lists for 0..3 and 160 stored points "
+    "after early-stopping reads.",
     design_ref="DESIGN.md 4 C16",
 )
 
